@@ -15,6 +15,6 @@ rc=$?
 if [ $rc -eq 0 ]; then
   (cd "$WT" && GOFLAGS=-mod=mod go build . ) || echo "MUTANT DOES NOT BUILD"
   ARGS="-nomin -runs $RUNS"; [ -n "$FAM" ] && ARGS="$ARGS -family $FAM"
-  VERIF_REPO="$WT" /verif/check "$P" quick $ARGS 2>&1 | grep "by rule\|$P quick\|KNOWN" | cut -c1-300
+  VERIF_REPO="$WT" /verif/check "$P" quick $ARGS 2>&1 | grep "by rule\|$P quick\|KNOWN\|race pass" | cut -c1-300
 fi
 git -C /repo worktree remove --force "$WT"
